@@ -583,3 +583,67 @@ def run(m):
     v = r["violations"]
     return {"failing": bool(v), "witness": v[0]["witness"] if v else "analysis", "call": v[0]["source"] if v else "template sweep", "result": v[0]["got"] if v else "ok"}
 '''
+
+
+# ---- "every variable path evaluated during any render appears in the reported variables and
+# ---- variable paths": a reference is recorded unless the SAME reference (same segments at the
+# ---- same place: template name AND offset) is already there -- never dropped because another
+# ---- reference merely shares its root name or its offset
+
+SA = "liquid.static_analysis"
+
+REPLAY_VARMAP = r'''
+def run(m):
+    import asyncio
+    from liquid import Environment, DictLoader
+    env = Environment(loader=DictLoader({"a": "{{ site.name }}", "b": "{{ site.year }}"}))
+    t = env.from_string("{% include 'a' %}{% include 'b' %}")
+    bad = []
+    for an in (t.analyze(), asyncio.run(t.analyze_async())):
+        paths = sorted(str(v) for v in an.variables.get("site", []))
+        if paths != ["site.name", "site.year"]:
+            bad.append(paths)
+    return {"violated": bool(bad), "observed": bad, "witness": "reference-dropped-by-de-duplication"}
+'''
+
+
+@contract(SA + ":_VariableMap.add", prop="C19", name="_VariableMap.add[a reference is kept unless the same segments at the same template and offset are already recorded]")
+def varmap_add(c):
+    def var(tag):
+        segs = c.st.alloc(HList(items=[const("site"), c.str(tag + "_segment")]))
+        span = c.obj("liquid.span:Span", tag + "_span", template_name=c.str(tag + "_template"), index=c.int(tag + "_index"))
+        return c.obj(SA + ":Variable", tag, segments=segs, span=span), segs, span
+    old, osegs, ospan = var("recorded")
+    new, nsegs, nspan = var("added")
+    box_ = {}
+
+    def entry(eng, cc, func):
+        # the map is built by its real constructor and the first reference recorded by the real add()
+        outs = []
+        for s0, m_ in eng.instantiate(cc.st, VClass(SA, "_VariableMap"), [], {}):
+            if isinstance(m_, Raised):
+                outs.append((s0, m_))
+                continue
+            box_["self"] = m_
+            for s1, r1 in eng.run(func, s0, [old], {}, self_val=m_):
+                if isinstance(r1, Raised):
+                    outs.append((s1, r1))
+                    continue
+                outs.extend(eng.run(func, s1, [new], {}, self_val=m_))
+        return outs
+    c.entry = entry
+
+    def post(r):
+        self = box_["self"]
+        data = r.st.deref(r.st.deref(self).fields["_data"])
+        items = r.engine.concrete_items(r.st, data.items["site"]) if isinstance(data, HDict) and "site" in data.items else None
+        if items is None or not items or items[0] != old:
+            return z3.BoolVal(False)
+        f = lambda o, k: r.st.deref(o).fields[k].t  # noqa: E731
+        same = z3.And(r.st.deref(osegs).items[1].t == r.st.deref(nsegs).items[1].t, f(ospan, "template_name") == f(nspan, "template_name"), f(ospan, "index") == f(nspan, "index"))
+        if items == [old]:
+            return same           # dropped only as an exact duplicate
+        return z3.BoolVal(items == [old, new])
+    c.ensures("recorded-references-stay-and-the-new-one-is-appended-unless-it-is-an-exact-duplicate", post)
+    c.raises()
+    c.replay("code", code=REPLAY_VARMAP)
